@@ -800,3 +800,274 @@ Qed.
 Lemma stub_view_spec (n : nat) (T : tree) :
   wf_tree T → Sim (stub_stack n (skel T)) (blank T) ∧ skel (blank T) = skel T.
 Proof. intros HT. split; [by apply stub_sim|apply skel_blank]. Qed.
+
+(** ** Whole histories: the real record is a well-formed chain, and the stub work flow closes *)
+
+Definition nb_op (o : op) : Prop := match o with OBoundary => False | _ => True end.
+
+Lemma copy_shape R (src dst : path) R1 : m_copy R src dst = Some R1 → same_shape R R1.
+Proof.
+  unfold m_copy. destruct src as [|s sp]; [done|]. destruct dst as [|t dpar]; [done|].
+  destruct (status R (s :: sp)) as [[i e]|]; [|done]. destruct (status R (t :: dpar)); [done|].
+  destruct (m_mkgroups _ R dpar) as [[R0 c]|] eqn:Hm; [|done]. intros [= <-].
+  eapply same_shape_trans; [by eapply mkgroups_shape|apply same_shape_with_top].
+Qed.
+
+Lemma step_shape_nb R o : nb_op o → same_shape R (m_step R o).1.
+Proof.
+  intros Ho. destruct o as [q|q v|q|p k v|p k|s d|s d|]; try (by apply step_shape).
+  - unfold m_step. destruct (is_node_path s && is_node_path d); [|apply same_shape_refl].
+    destruct (m_copy R s d) eqn:Hc; [|apply same_shape_refl]. by eapply copy_shape.
+  - unfold m_step. destruct (is_node_path s && is_node_path d); [|apply same_shape_refl].
+    unfold m_move. case_decide; [apply same_shape_refl|].
+    destruct (m_copy R s d) as [R1|] eqn:Hc; [|apply same_shape_refl].
+    destruct (m_delete R1 s) as [R2|] eqn:Hd; [|apply same_shape_refl]. cbn.
+    eapply same_shape_trans; [by eapply copy_shape|by eapply delete_shape].
+Qed.
+
+Lemma run_shape_nb ops : Forall nb_op ops → ∀ R, same_shape R (run_from R ops).
+Proof.
+  induction 1 as [|o ops Ho _ IH]; intros R; [apply same_shape_refl|]. cbn [run_from foldl].
+  eapply same_shape_trans; [by apply step_shape_nb|apply IH].
+Qed.
+
+Lemma run_Inv ops R : Inv R → Inv (run_from R ops).
+Proof.
+  intros HI. pose proof (fold_refines ops R _ (Inv_Sim_viewmap R HI)) as [? _]. done.
+Qed.
+
+Section Histories.
+  Context (H : manifest → N) (Hp : cont → N).
+  Import Chain ChainProofs.
+  Local Open Scope N_scope.
+
+  Definition rec_wf (st : mfrec) : Prop :=
+    Inv (r_stack st) ∧ committed st = true ∧
+    length (r_ubs st) = length (r_stack st) ∧ length (r_disk st) = length (r_stack st) ∧
+    chain_ok true false (files_of H Hp st) ∧ Forall intact (files_of H Hp st) ∧
+    (∀ f, In f (files_of H Hp st) → fpid f < r_next st) ∧
+    mf_linked H st.
+
+  Lemma files_nf_length R : ∀ us ds,
+    length us = length R → length ds = length R → length (files_nf H Hp R us ds) = length R.
+  Proof.
+    induction R as [|[n c] R IH]; intros [|u us] [|d ds]; cbn; try done.
+    intros [= Hu] [= Hd]. by rewrite IH.
+  Qed.
+
+  (** The commit of a writable newest container [(n, c)] with user block [u]. *)
+  Lemma commit_files stub given st st' (n : nat) c R u us d0 ds :
+    r_stack st = (n, c) :: R → r_ubs st = u :: us → r_disk st = d0 :: ds →
+    mf_commit H Hp stub given st = Some st' →
+    ∃ u' m, r_stack st' = (n, c) :: R ∧ r_ubs st' = u' :: us ∧ r_disk st' = Some m :: ds ∧
+            r_mf st' = Some m ∧ r_next st' = r_next st + 1 ∧
+            rec_id u' = rec_id u ∧ idx u' = idx u ∧ pid u' = pid u ∧ prev u' = prev u ∧
+            hash u' = Some (Hp c) ∧ ext u' = Some (MkExt stub (r_next st) (H m)) ∧
+            mf_uuid m = r_next st ∧ mf_linked H st'.
+  Proof.
+    intros HR Hu Hd Hc. pose proof (commit_spec H Hp _ _ _ _ Hc) as (Hl & _).
+    revert Hc. unfold mf_commit. rewrite HR, Hu, Hd. destruct (hash u); [done|].
+    intros [= <-]. cbn. eexists _, _. do 12 (split; [done|]). exact Hl.
+  Qed.
+
+  Lemma first_round_wf r (next : N) st' :
+    Forall nb_op r.1 → mf_round H Hp r (mf_new next) = Some st' → rec_wf st' ∧ next + 2 ≤ r_next st'.
+  Proof.
+    intros Hops. unfold mf_round. cbn [committed mf_new r_ubs Chain.hash Chain.is_some].
+    intros Hc.
+    destruct (run_shape_nb r.1 Hops m_init) as (Ht & Hi & Hne).
+    pose proof (stack_eta _ (Hne ltac:(done))) as Heta. cbn in Ht, Hi. rewrite Ht, Hi in Heta.
+    lazymatch type of Hc with mf_commit _ _ _ _ ?s = _ =>
+      destruct (commit_files false r.2 s st' _ _ _ _ _ _ _ Heta eq_refl eq_refl Hc)
+        as (u' & m & HR & Hu & Hd & Hm & Hn & Hrec & Hidx & Hpid & Hprev & Hh & Hext & Hid & Hl)
+    end.
+    cbn in Hn, Hrec, Hidx, Hpid, Hprev, Hext.
+    assert (files_of H Hp st' = [MkFile u' (Hp (top_cont (run_from m_init r.1))) (Some (mf_uuid m, H m))]) as Hf.
+    { unfold files_of. by rewrite HR, Hu, Hd. }
+    split; [|lia]. split.
+    { rewrite HR. rewrite <-Heta. apply run_Inv. apply init_sim. }
+    split; [unfold committed; by rewrite Hu, Hh|].
+    split; [by rewrite HR, Hu|]. split; [by rewrite HR, Hd|].
+    rewrite Hf. split; [|split; [|split; [|done]]].
+    - constructor.
+      + eexists _, []. split; [done|]. split; [done|]. split; [constructor|]. intros _. constructor.
+      + constructor.
+      + cbn. apply NoDup_ListNoDup, NoDup_singleton.
+      + eexists [], _. split; [done|]. split; [constructor|]. split.
+        * right. unfold intact, fhash. by cbn.
+        * intros _ e. unfold fext. cbn. rewrite Hext. intros [= <-]. cbn. by eexists.
+    - constructor; [|constructor]. unfold intact, fhash. by cbn.
+    - intros f [<-|[]]. unfold fpid. cbn. rewrite Hpid, Hn. lia.
+  Qed.
+
+  Lemma round_wf r st st' :
+    rec_wf st → Forall nb_op r.1 → mf_round H Hp r st = Some st' →
+    rec_wf st' ∧ r_next st ≤ r_next st'.
+  Proof.
+    intros (HI & Hcom & Hlu & Hld & Hchain & Hint & Hfresh & Hlink) Hops.
+    unfold mf_round. rewrite Hcom. unfold mf_create_patch.
+    destruct (r_stack st) as [|[n0 c0] R0] eqn:HR0; [by destruct HI|].
+    destruct (r_ubs st) as [|u0 us0] eqn:Hu0; [done|].
+    destruct (r_disk st) as [|d0 ds0] eqn:Hd0; [done|].
+    unfold committed in Hcom. rewrite Hu0 in Hcom.
+    destruct (hash u0) as [h0|] eqn:Hh0; [|done]. cbn [mf_ops r_stack r_ubs r_mf r_disk r_next].
+    intros Hc.
+    set (R := (n0, c0) :: R0) in *.
+    destruct (run_shape_nb r.1 Hops (m_boundary R)) as (Ht & Hi & Hne).
+    pose proof (stack_eta _ (Hne ltac:(done))) as Heta. cbn in Ht, Hi. rewrite Ht, Hi in Heta.
+    set (P := top_cont (run_from (m_boundary R) r.1)) in *.
+    lazymatch type of Hc with mf_commit _ _ _ _ ?s = _ =>
+      destruct (commit_files false r.2 s st' _ _ _ _ _ _ _ Heta eq_refl eq_refl Hc)
+        as (u' & m & HR & Hu & Hd & Hm & Hn & Hrec & Hidx & Hpid & Hprev & Hh & Hext & Hid & Hl)
+    end.
+    cbn in Hn, Hrec, Hidx, Hpid, Hprev, Hext.
+    set (pf := MkFile u' (Hp P) (Some (mf_uuid m, H m))).
+    set (nf := MkFile u0 (Hp c0) ((λ m, (mf_uuid m, H m)) <$> d0)).
+    assert (files_of H Hp st = rev (files_nf H Hp R0 us0 ds0) ++ [nf]) as Hf0.
+    { unfold files_of. by rewrite HR0, Hu0, Hd0. }
+    assert (files_of H Hp st' = files_of H Hp st ++ [pf]) as Hf.
+    { rewrite Hf0. unfold files_of. rewrite HR, Hu, Hd. done. }
+    split; [|lia]. split.
+    { rewrite HR, <-Heta. apply run_Inv. apply boundary_refines with (T := viewmap R).
+      by apply Inv_Sim_viewmap. }
+    split; [unfold committed; by rewrite Hu, Hh|].
+    split; [rewrite HR, Hu; cbn; cbn in Hlu; lia|]. split; [rewrite HR, Hd; cbn; cbn in Hld; lia|].
+    rewrite Hf.
+    assert (List.last (files_of H Hp st) nf = nf) as Hlast by (rewrite Hf0; apply last_last).
+    assert (files_of H Hp st ≠ []) as Hne0 by (rewrite Hf0; by destruct (rev _)).
+    split; [|split; [|split; [|done]]].
+    - apply (patch_accepted _ nf); [done|done|done|done| | | | | | |].
+      + unfold frec. cbn. by rewrite Hrec.
+      + unfold fidx. cbn. rewrite Hidx. lia.
+      + unfold fprev, fpid. cbn. by rewrite Hprev.
+      + unfold fpid at 1. cbn. rewrite Hpid. intros (f & Hf1 & Hin)%in_map_iff.
+        specialize (Hfresh f Hin). lia.
+      + unfold intact, fhash. cbn. done.
+      + intros e. unfold fext. cbn. rewrite Hext. intros [= <-]. cbn. by eexists.
+      + intros e. unfold fext. cbn. rewrite Hext. by intros [= <-].
+    - apply Forall_app. split; [done|]. constructor; [|constructor]. unfold intact, fhash. by cbn.
+    - intros f [Hin|[<-|[]]]%in_app_or.
+      + specialize (Hfresh f Hin). lia.
+      + unfold fpid. cbn. rewrite Hpid, Hn. lia.
+  Qed.
+
+  Lemma rounds_wf rs : ∀ st st',
+    rec_wf st → Forall (λ r, Forall nb_op r.1) rs → mf_rounds H Hp rs st = Some st' → rec_wf st'.
+  Proof.
+    induction rs as [|r rs IH]; intros st st' Hwf Hops; cbn [mf_rounds].
+    - by intros [= <-].
+    - apply Forall_cons in Hops as [Hr Hrs].
+      destruct (mf_round H Hp r st) as [st1|] eqn:Hr1; [|done].
+      apply round_wf in Hr1 as [Hwf1 _]; [|done|done]. by apply IH.
+  Qed.
+
+  (** Every history that starts from a fresh record yields a well-formed committed record. *)
+  Lemma history_wf rs (next : N) st :
+    rs ≠ [] → Forall (λ r, Forall nb_op r.1) rs →
+    mf_rounds H Hp rs (mf_new next) = Some st → rec_wf st.
+  Proof.
+    destruct rs as [|r rs]; [done|]. intros _ [Hr Hrs]%Forall_cons. cbn [mf_rounds].
+    destruct (mf_round H Hp r (mf_new next)) as [st1|] eqn:H1; [|done].
+    apply first_round_wf in H1 as [Hwf _]; [|done]. by apply rounds_wf.
+  Qed.
+
+  Lemma direct_round_exists r st (k : N) :
+    committed st = true → r_stack st ≠ [] → Forall eb_op r.1 →
+    ∃ d, mf_round H Hp r (with_next st k) = Some d ∧
+         r_stack d = run_from (m_boundary (r_stack st)) r.1.
+  Proof.
+    intros Hcom Hne Hops. unfold mf_round, committed, with_next. cbn [r_ubs].
+    unfold committed in Hcom. rewrite Hcom. unfold mf_create_patch. cbn [r_ubs].
+    destruct (r_ubs st) as [|u0 us0]; [done|]. destruct (hash u0); [|done].
+    unfold mf_ops, mf_commit. cbn [r_stack r_ubs r_disk r_mf r_next].
+    rewrite (run_decompose (r_stack st) r.1 Hops). unfold apply_patch at 1. cbn.
+    eexists. split; [done|]. done.
+  Qed.
+
+  (** The whole work flow on a well-formed committed record [real] with loaded manifest [m]:
+      stub from [m], an existence-based update [r] on it, the resulting patch file [pf];
+      [pf] is accepted on top of the real files in any listing order; the record so opened has
+      the same containers as after the direct update [r] on [real] (so the same view at every
+      path), which is the plain-tree update of the real view; the stub set refuses to merge. *)
+  Lemma end_to_end real m r (k : N) :
+    rec_wf real → r_mf real = Some m → Forall eb_op r.1 →
+    ∃ sp pf g d,
+      stub_patch H Hp m (r_next real) r = Some sp ∧
+      mf_can_merge sp = false ∧
+      head (files_nf H Hp (r_stack sp) (r_ubs sp) (r_disk sp)) = Some pf ∧
+      (∀ fs, Permutation (files_of H Hp real ++ [pf]) fs →
+             open_check true false fs = Some (files_of H Hp real ++ [pf])) ∧
+      graft_patch real sp = Some g ∧ files_of H Hp g = files_of H Hp real ++ [pf] ∧
+      mf_round H Hp r (with_next real k) = Some d ∧
+      r_stack g = r_stack d ∧
+      viewmap (r_stack g) = foldl (λ T o, (t_step T o).1) (viewmap (r_stack real)) r.1.
+  Proof.
+    intros (HI & Hcom & Hlu & Hld & Hchain & Hint & Hfresh & Hlink) Hm Hops.
+    pose proof HI as HI'.
+    unfold mf_linked in Hlink. rewrite Hm in Hlink.
+    destruct (r_stack real) as [|[n0 c0] R0] eqn:HR0; [done|].
+    destruct (r_ubs real) as [|u0 us0] eqn:Hu0; [done|].
+    destruct (r_disk real) as [|d0 ds0] eqn:Hd0; [done|].
+    destruct Hlink as (-> & _ & Hcore & _ & Hsk).
+    set (R := (n0, c0) :: R0) in *.
+    set (nf := MkFile u0 (Hp c0) (Some (mf_uuid m, H m))).
+    assert (files_of H Hp real = rev (files_nf H Hp R0 us0 ds0) ++ [nf]) as Hf0.
+    { unfold files_of. by rewrite HR0, Hu0, Hd0. }
+    assert (List.last (files_of H Hp real) nf = nf) as Hlast by (rewrite Hf0; apply last_last).
+    assert (files_of H Hp real ≠ []) as Hne0 by (rewrite Hf0; by destruct (rev _)).
+    destruct (stub_patch_accepted H Hp (files_of H Hp real) nf m (r_next real) r
+                Hchain Hint Hne0 Hlast Hcore Hfresh Hops) as (sp & pf & Hsp & Hpf & _ & _ & Hacc).
+    destruct (stub_patch_spec H Hp true m (r_next real) r Hops)
+      as (sp' & mp & u0' & up & m0 & Hsp' & HS & Hu & Hmp & Hd & _).
+    unfold stub_patch in Hsp. rewrite Hsp in Hsp'. injection Hsp' as <-.
+    destruct (stub_merge_refused H Hp true m (r_next real)) as [_ Hmerge].
+    destruct (direct_round_exists r real k) as (d & Hd1 & Hd2);
+      [exact Hcom|rewrite HR0; unfold R; done|done|].
+    rewrite HS, Hu, Hd in Hpf. unfold apply_patch in Hpf. cbn in Hpf. injection Hpf as <-.
+    eexists sp, _, _, d. split; [done|]. split; [by eapply Hmerge|].
+    split; [by rewrite HS, Hu, Hd|]. split; [exact Hacc|].
+    split; [unfold graft_patch; by rewrite HS, Hu, Hd|]. cbn [r_stack].
+    split; [unfold files_of; cbn [r_stack r_ubs r_disk]; rewrite HR0, Hu0, Hd0; done|].
+    split; [done|].
+    rewrite Hsk, HR0 in *. fold R.
+    destruct (stub_patch_applies (N.to_nat (idx (mf_ub m))) R r.1 HI' Hops) as (H1 & _ & H3).
+    rewrite Hd2. split; [exact H1|exact H3].
+  Qed.
+
+  (** ... for every history from a fresh record. *)
+  Lemma history_end_to_end rs (next : N) real m r (k : N) :
+    rs ≠ [] → Forall (λ r, Forall nb_op r.1) rs →
+    mf_rounds H Hp rs (mf_new next) = Some real → r_mf real = Some m → Forall eb_op r.1 →
+    ∃ sp pf g d,
+      stub_patch H Hp m (r_next real) r = Some sp ∧
+      mf_can_merge sp = false ∧
+      head (files_nf H Hp (r_stack sp) (r_ubs sp) (r_disk sp)) = Some pf ∧
+      (∀ fs, Permutation (files_of H Hp real ++ [pf]) fs →
+             open_check true false fs = Some (files_of H Hp real ++ [pf])) ∧
+      graft_patch real sp = Some g ∧ files_of H Hp g = files_of H Hp real ++ [pf] ∧
+      mf_round H Hp r (with_next real k) = Some d ∧
+      r_stack g = r_stack d ∧
+      viewmap (r_stack g) = foldl (λ T o, (t_step T o).1) (viewmap (r_stack real)) r.1.
+  Proof.
+    intros Hne Hnb Hrun. apply end_to_end. by eapply history_wf.
+  Qed.
+End Histories.
+
+(** The manifest written with a patch made on a stub names the paths, kinds and attribute
+    names of the patched real record, but carries the stub's patch index for every node the
+    stub provided (the code computes the skeleton on stub + patch): /a is created in the base
+    container (index 0), the record has two containers, the stub gets index 1. *)
+Local Open Scope string_scope.
+Definition index_case : option (option (kind * nat) * option (kind * nat) * bool) :=
+  real ← mf_rounds rH rHp [([OData [(false, "a")] "i:1"], None); ([], None)] (mf_new 1);
+  m ← r_mf real;
+  sp ← stub_patch rH rHp m (r_next real) ([OData [(false, "b")] "i:2"], None);
+  mp ← r_mf sp;
+  g ← graft_patch real sp;
+  Some (mf_skel mp !! [(false, "a")], skelx (r_stack g) !! [(false, "a")],
+        bool_decide (fst <$> mf_skel mp = fst <$> skelx (r_stack g))).
+
+Lemma stub_manifest_index_observed :
+  index_case = Some (Some (KData, 1%nat), Some (KData, 0%nat), true).
+Proof. vm_compute. reflexivity. Qed.
+Local Close Scope string_scope.
